@@ -120,7 +120,7 @@ def main(argv=None):
         checker_errors.append('axiom twins could not run: %s' % e)
     for script, args, what in plan.get('native', []):
         try:
-            rc, js, err = native(script, args)
+            rc, js, err = native(script, args, env={'VERIF_PROP': prop})
         except subprocess.TimeoutExpired:
             rc, js, err = 3, {'raw': 'timeout'}, ''
         native_res.append({'what': what, 'script': script, 'rc': rc, 'result': js})
